@@ -724,6 +724,22 @@ def merge_measure_contents(notes, other, measure_start, measure_end):
     return result
 
 
+def pedal_stop_direction(direction):
+    e0e = etree.Element("direction", placement="below")
+    e1e = etree.SubElement(e0e, "direction-type")
+    if isinstance(direction, score.SustainPedalDirection):
+        pedal_kwargs = {}
+        if direction.line:
+            pedal_kwargs["line"] = "yes"
+        else:
+            pedal_kwargs["sign"] = "yes"
+        etree.SubElement(e1e, "pedal", type="stop", **pedal_kwargs)
+    if direction.staff is not None and direction.staff != 1:
+        e3e = etree.SubElement(e0e, "staff")
+        e3e.text = str(direction.staff)
+    return e0e
+
+
 def do_directions(part, start, end, counter):
     result = []
 
@@ -775,23 +791,7 @@ def do_directions(part, start, end, counter):
                 elem = (direction.start.t, None, e0s)
                 result.append(elem)
             if ped_end.t <= end.t:
-                e0e = etree.Element("direction", placement="below")
-                e1e = etree.SubElement(e0e, "direction-type")
-                if isinstance(direction, score.SustainPedalDirection):
-                    pedal_kwargs = {}
-                    if direction.line:
-                        pedal_kwargs["line"] = "yes"
-                    else:
-                        pedal_kwargs["sign"] = "yes"
-                    # For Flake8 (ignore unused variable), since
-                    # etree.SubElement adds e2e to e1e
-                    e2e = etree.SubElement(  # noqa: F841
-                        e1e, "pedal", type="stop", **pedal_kwargs
-                    )
-                if direction.staff is not None and direction.staff != 1:
-                    e3e = etree.SubElement(e0e, "staff")
-                    e3e.text = str(direction.staff)
-                elem = (ped_end.t, None, e0e)
+                elem = (ped_end.t, None, pedal_stop_direction(direction))
                 result.append(elem)
         else:
             e0 = etree.Element("direction")
@@ -860,6 +860,21 @@ def do_directions(part, start, end, counter):
 
         elem = (direction.end.t, None, e0)
         ending.append(elem)
+
+    # pedals that started in an earlier segment and end in this one
+    pedals = part.iter_all(
+        score.PedalDirection,
+        start.next,
+        end.next,
+        include_subclasses=True,
+        mode="ending",
+    )
+
+    for direction in pedals:
+        text = direction.raw_text or direction.text
+        if text in PEDAL_DIRECTIONS and direction.start.t < start.t:
+            elem = (direction.end.t, None, pedal_stop_direction(direction))
+            ending.append(elem)
 
     return ending + result
 
